@@ -83,7 +83,11 @@ func n10RunExpiry(c *n10ExpCase) (info n10ExpInfo, key string, err error, inconc
 		return info, k, fmt.Errorf("%s\n  case: %+v\n  follower:\n%s  leader:\n%s", fmt.Sprintf(format, a...), *c, n09DescribeState(n09Canon(fsl, false)), n09DescribeState(n09Canon(e.leader.inst.slock, false))), ""
 	}
 	if c.Real {
-		time.Sleep(time.Duration(c.E)*time.Second + 2500*time.Millisecond)
+		if c.EF&0x0400 != 0 {
+			time.Sleep(time.Duration(c.E)*time.Millisecond + 2500*time.Millisecond) // millisecond unit: the ms wheel runs on wall time
+		} else {
+			time.Sleep(time.Duration(c.E)*time.Second + 2500*time.Millisecond)
+		}
 		info.leaderExpired = !n10FollowerHas(e.leader.inst.slock, 0)
 		for k := 0; k < c.Keys; k++ {
 			if !n10FollowerHas(fsl, k) {
@@ -233,9 +237,17 @@ func TestC10_FollowerKeepsExpiredHold(t *testing.T) {
 // TestC10_FollowerKeepsExpiredHoldReal: the same with the real sweep goroutines (wall time).
 func TestC10_FollowerKeepsExpiredHoldReal(t *testing.T) {
 	st := vstat("TestC10_FollowerKeepsExpiredHoldReal")
-	n := vEnvInt("VERIF_C10_REAL_CASES", 2)
+	n := vEnvInt("VERIF_C10_REAL_CASES", 3)
 	for i := 0; i < n; i++ {
-		c := &n10ExpCase{Kind: "expiry", Real: true, E: 1 + i%2, Keys: 1 + i%3, Rc: i % 2, EF: []int{0x8000, 0, 0x8000 | 0x0800, 0x2000}[i%4]}
+		c := &n10ExpCase{Kind: "expiry", Real: true, E: 1 + i%2, Keys: 1 + i%3, Rc: i % 2, EF: []int{0x8000, 0x0400, 0, 0x8000 | 0x0800, 0x0400 | 0x8000, 0x2000}[i%6]}
+		if c.EF&0x0400 != 0 {
+			// expiry in milliseconds (flag 0x0400, < 3000): held in the millisecond wheel, which only wall time drives;
+			// the shard seed varies the value
+			c.E = 900 + (vEnvInt("VERIF_SHARD_SEED", 7)%13)*100 + i*150
+			if c.E > 2900 {
+				c.E = 2900
+			}
+		}
 		info, key, err, inc := n10RunExpiry(c)
 		if inc != "" {
 			n09Inconclusive("C10 expiry (real time): " + inc)
